@@ -698,6 +698,8 @@ func (c *converter) addDefaultHostBackend(source *annotations.Source, fullSvcNam
 	match := hatypes.MatchBegin
 	if fr := c.haproxy.Hosts().FindHost(hostname); fr != nil {
 		if fr.FindPath(uri, match) != nil {
+			// a skipped declaration needs to be parsed again if the owner of the path is removed
+			c.tracker.TrackNames(source.Type, source.FullName(), convtypes.ResourceHAHostname, hostname)
 			return fmt.Errorf("path %s was already defined on default host", uri)
 		}
 	}
@@ -714,11 +716,13 @@ func (c *converter) addDefaultHostBackend(source *annotations.Source, fullSvcNam
 
 func (c *converter) addTCPService(source *annotations.Source, hostname string, ann map[string]string) (*hatypes.TCPServiceHost, error) {
 	tcpPort, tcpHost := c.haproxy.TCPServices().AcquireTCPService(hostname)
+	// track before the conflict check, a skipped declaration needs
+	// to be parsed again if the owner of the tcp service is removed
+	c.tracker.TrackNames(source.Type, source.FullName(), convtypes.ResourceHATCPService, hostname)
 	if !tcpHost.Backend.IsEmpty() {
 		tcpservice := strings.TrimPrefix(hostname, hatypes.DefaultHost)
 		return nil, fmt.Errorf("tcp service %s was already assigned to %s", tcpservice, tcpHost.Backend)
 	}
-	c.tracker.TrackNames(source.Type, source.FullName(), convtypes.ResourceHATCPService, hostname)
 	mapper, found := c.tcpsvcAnnotations[tcpPort]
 	if !found {
 		mapper = c.mapBuilder.NewMapper()
